@@ -172,6 +172,22 @@ Definition tocsc_proto : attr_proto := {|
 (* deque(maxlen=cache_maxlen); a negative maxlen is a ValueError in Python and maps to 0 here *)
 Definition cache_cap : nat := Z.to_nat cache_maxlen.
 
+(* the copy constructor COO(other[, fill_value=v]) as the source has it now *)
+Record copy_site := {
+  cs_shallow : bool;        (* starts with self._make_shallow_copy_of(other): _cache, _csr, _csc are inherited *)
+  cs_returns : bool;        (* the branch ends with `return` *)
+  cs_sets_fill : bool;      (* the fill branch re-binds self.fill_value *)
+  cs_fill_resets : bool;    (* ... and calls self.enable_caching() when a cache exists: a fresh, empty cache *)
+  cs_plain_resets : bool    (* the copy without fill_value gets a fresh cache too (otherwise it shares other's) *)
+}.
+Definition coo_copy_site : copy_site := {|
+  cs_shallow := copy_branch_shallow_copy; cs_returns := copy_branch_returns;
+  cs_sets_fill := copy_fill_sets_fill_value; cs_fill_resets := copy_fill_resets_cache;
+  cs_plain_resets := copy_plain_resets_cache |}.
+(* what transparency needs of it: a copy whose value differs never shares the memo *)
+Definition copy_site_ok (c : copy_site) : bool :=
+  cs_shallow c && cs_returns c && cs_sets_fill c && cs_fill_resets c.
+
 (* environments of named locals; a key is the list of the values of the key names *)
 Section Env.
   Variable W : Type.
@@ -189,27 +205,43 @@ Arguments key_of {W} names e.
 Arguments keys_eqb {W} weqb a b.
 
 (* ------------------------------------------------------------------ the family of objects *)
-Record cache (KT KR : Type) := {
-  c_tr : list (KT * nat);      (* self._cache["transpose"] : (key, object id) *)
-  c_rs : list (KR * nat);      (* self._cache["reshape"] *)
-  c_csr : option nat;          (* self._csr *)
-  c_csc : option nat           (* self._csc *)
+(* The memo state is split the way Python shares it:
+   - whether an object caches at all (`_cache is not None`) is a property of the OBJECT: results of
+     transpose/reshape inherit it (cache=self._cache is not None), the copy constructor inherits it
+     (shallow copy of __dict__), but x.copy() and x.copy(deep=False) go through __getstate__/__setstate__,
+     which sets `_cache = None`: such a copy (and everything derived from it) does not cache;
+   - the defaultdict `_cache` is an object of its own (a CELL); COO(x) copies x.__dict__, so the copy
+     refers to the SAME cell as x (both see and feed the same deques); COO(x, fill_value=v) calls
+     enable_caching() again and gets a fresh cell (generated copy site);
+   - `_csr` / `_csc` are plain attributes: a copy made by the constructor inherits their current
+     bindings, later assignments are private. *)
+Record dq (KT KR : Type) := {
+  d_tr : list (KT * nat);      (* self._cache["transpose"] : (key, object id), oldest first *)
+  d_rs : list (KR * nat)       (* self._cache["reshape"] *)
 }.
-Arguments c_tr {KT KR} c.
-Arguments c_rs {KT KR} c.
-Arguments c_csr {KT KR} c.
-Arguments c_csc {KT KR} c.
-Arguments Build_cache {KT KR}.
+Arguments d_tr {KT KR} d.
+Arguments d_rs {KT KR} d.
+Arguments Build_dq {KT KR}.
+
+Record attrs := {
+  a_csr : option nat;          (* self._csr *)
+  a_csc : option nat           (* self._csc *)
+}.
+Definition no_attrs : attrs := {| a_csr := None; a_csc := None |}.
 
 Inductive target := TRoot | TOut (i : nat).    (* the root, or what the i-th call returned *)
 
 Inductive out := ORaise (e : exc) | OObj (id : nat) | OSkip.   (* OSkip: the target call had raised *)
 
+Definition updn {A} (f : nat -> A) (i : nat) (a : A) : nat -> A :=
+  fun j => if Nat.eqb j i then a else f j.
+
 Section Family.
   Variable V : Type.                       (* observable value of an object (array or matrix) *)
-  Variables (AT AR ET ER KT KR : Type).
+  Variables (AT AR ET ER KT KR F : Type).
   Variables (kt_eqb : KT -> KT -> bool) (kr_eqb : KR -> KR -> bool).
   Variable cap : nat.
+  Variable site : copy_site.
   (* COO.transpose *)
   Variable pre_t : V -> AT -> pre ET.
   Variables (lkey_t skey_t : ET -> KT).
@@ -222,22 +254,32 @@ Section Family.
   Variable guard_m : V -> option exc.      (* check_zero_fill_value(self) *)
   Variable mk_csr : V -> res V.            (* self._tocsr() *)
   Variables (csr2csc csc2csr : V -> V).    (* scipy's .tocsc() / .tocsr() *)
+  (* COO(x, fill_value=f) *)
+  Variable refill : V -> F -> V.
 
-  Inductive op := OpT (a : AT) | OpR (a : AR) | OpCsr | OpCsc.
+  Inductive op :=
+  | OpT (a : AT) | OpR (a : AR) | OpCsr | OpCsc
+  | OpCopy (f : option F)     (* COO(t) / COO(t, fill_value=f) *)
+  | OpPickle                  (* t.copy(), t.copy(deep=False): via __setstate__, the copy does not cache *)
+  | OpSame.                   (* t.astype(t.dtype, copy=False), t.asformat("coo"): `return self` *)
 
-  Definition cache_t := cache KT KR.
-  Definition empty_cache : cache_t := Build_cache [] [] None None.
+  Definition dq_t := dq KT KR.
+  Definition empty_dq : dq_t := Build_dq [] [].
 
   Record st := {
     vals : list V;                (* object id -> value; append-only *)
-    caches : nat -> cache_t;      (* object id -> its memo state *)
+    flag : nat -> bool;           (* object id -> `_cache is not None` *)
+    cell : nat -> nat;            (* object id -> the cell its _cache attribute refers to *)
+    ncell : nat;                  (* cells allocated so far *)
+    deqs : nat -> dq_t;           (* cell -> its deques *)
+    attr : nat -> attrs;          (* object id -> _csr/_csc *)
     outs : list out               (* what each call so far returned *)
   }.
 
-  Definition init (v0 : V) : st := {| vals := [v0]; caches := fun _ => empty_cache; outs := [] |}.
-
-  Definition set_cache (cs : nat -> cache_t) (t : nat) (c : cache_t) : nat -> cache_t :=
-    fun i => if Nat.eqb i t then c else cs i.
+  (* the root array, cache-enabled or not *)
+  Definition init (b : bool) (v0 : V) : st :=
+    {| vals := [v0]; flag := fun _ => b; cell := fun _ => 0%nat; ncell := 1; deqs := fun _ => empty_dq;
+       attr := fun _ => no_attrs; outs := [] |}.
 
   Definition resolve (s : st) (tg : target) : option nat :=
     match tg with
@@ -245,130 +287,154 @@ Section Family.
     | TOut i => match nth_error (outs s) i with Some (OObj id) => Some id | _ => None end
     end.
 
-  (* allocate a new object *)
-  Definition alloc (s : st) (v : V) : nat * list V := (List.length (vals s), vals s ++ [v]).
+  (* ---- state transformers *)
+  (* a new object with value v, caching or not, its own empty cell, attributes a *)
+  Definition new_fresh (s : st) (v : V) (b : bool) (a : attrs) : st * nat :=
+    let id := List.length (vals s) in
+    ({| vals := vals s ++ [v]; flag := updn (flag s) id b; cell := updn (cell s) id (ncell s); ncell := S (ncell s);
+        deqs := updn (deqs s) (ncell s) empty_dq; attr := updn (attr s) id a; outs := outs s |}, id).
 
-  Definition finish (s : st) (vs : list V) (cs : nat -> cache_t) (o : out) : st :=
-    {| vals := vs; caches := cs; outs := outs s ++ [o] |}.
+  (* a new caching object with value v that refers to the existing cell c, attributes a *)
+  Definition new_shared (s : st) (v : V) (c : nat) (a : attrs) : st * nat :=
+    let id := List.length (vals s) in
+    ({| vals := vals s ++ [v]; flag := updn (flag s) id true; cell := updn (cell s) id c; ncell := ncell s;
+        deqs := deqs s; attr := updn (attr s) id a; outs := outs s |}, id).
 
-  (* self.tocsr() on object t with value v, in caching mode; returns (result, vals, caches) *)
-  Definition csr_cached (s : st) (t : nat) (v : V) : out * list V * (nat -> cache_t) :=
-    let c := caches s t in
-    match c_csr c with
-    | Some id => (OObj id, vals s, caches s)                             (* return self._csr *)
+  Definition set_deq (s : st) (c : nat) (d : dq_t) : st :=
+    {| vals := vals s; flag := flag s; cell := cell s; ncell := ncell s; deqs := updn (deqs s) c d;
+       attr := attr s; outs := outs s |}.
+
+  Definition set_attr (s : st) (t : nat) (a : attrs) : st :=
+    {| vals := vals s; flag := flag s; cell := cell s; ncell := ncell s; deqs := deqs s;
+       attr := updn (attr s) t a; outs := outs s |}.
+
+  Definition emit (s : st) (o : out) : st :=
+    {| vals := vals s; flag := flag s; cell := cell s; ncell := ncell s; deqs := deqs s; attr := attr s;
+       outs := outs s ++ [o] |}.
+
+  (* self.tocsr() on a caching object t with value v *)
+  Definition csr_cached (s : st) (t : nat) (v : V) : out * st :=
+    let a := attr s t in
+    match a_csr a with
+    | Some id => (OObj id, s)                                           (* return self._csr *)
     | None =>
-      match c_csc c with
+      match a_csc a with
       | Some idc =>                                                     (* self._csr = self._csc.tocsr() *)
         match nth_error (vals s) idc with
-        | Some m => let '(id, vs) := alloc s (csc2csr m) in
-                    (OObj id, vs, set_cache (caches s) t (Build_cache (c_tr c) (c_rs c) (Some id) (c_csc c)))
-        | None => (ORaise OtherError, vals s, caches s)
+        | Some m => let '(s1, id) := new_fresh s (csc2csr m) false no_attrs in
+                    (OObj id, set_attr s1 t {| a_csr := Some id; a_csc := a_csc a |})
+        | None => (ORaise OtherError, s)
         end
       | None =>
         match mk_csr v with                                             (* self._csr = csr = self._tocsr() *)
-        | Raise e => (ORaise e, vals s, caches s)
-        | Ok m => let '(id, vs) := alloc s m in
-                  (OObj id, vs, set_cache (caches s) t (Build_cache (c_tr c) (c_rs c) (Some id) (c_csc c)))
+        | Raise e => (ORaise e, s)
+        | Ok m => let '(s1, id) := new_fresh s m false no_attrs in
+                  (OObj id, set_attr s1 t {| a_csr := Some id; a_csc := a_csc a |})
         end
       end
     end.
 
-  Definition step (mode : bool) (s : st) (tg : target) (o : op) : st :=
+  Definition step (s : st) (tg : target) (o : op) : st :=
     match resolve s tg with
-    | None => finish s (vals s) (caches s) OSkip
+    | None => emit s OSkip
     | Some t =>
       match nth_error (vals s) t with
-      | None => finish s (vals s) (caches s) OSkip
+      | None => emit s OSkip
       | Some v =>
-        let c := caches s t in
+        let caching := flag s t in         (* self._cache is not None *)
+        let c := cell s t in
+        let d := deqs s c in
         match o with
         | OpT a =>
           match pre_t v a with
-          | PRaise e => finish s (vals s) (caches s) (ORaise e)
-          | PSelf => finish s (vals s) (caches s) (OObj t)
+          | PRaise e => emit s (ORaise e)
+          | PSelf => emit s (OObj t)
           | PGo env =>
-            if mode then
-              match dq_lookup kt_eqb (c_tr c) (lkey_t env) with
-              | Some id => finish s (vals s) (caches s) (OObj id)
+            if caching then
+              match dq_lookup kt_eqb (d_tr d) (lkey_t env) with
+              | Some id => emit s (OObj id)
               | None =>
-                let '(id, vs) := alloc s (comp_t v env) in
-                finish s vs (set_cache (caches s) t
-                               (Build_cache (dq_append cap (c_tr c) (skey_t env, id)) (c_rs c) (c_csr c) (c_csc c)))
-                       (OObj id)
+                let '(s1, id) := new_fresh s (comp_t v env) true no_attrs in
+                emit (set_deq s1 c (Build_dq (dq_append cap (d_tr d) (skey_t env, id)) (d_rs d))) (OObj id)
               end
-            else let '(id, vs) := alloc s (comp_t v env) in finish s vs (caches s) (OObj id)
+            else let '(s1, id) := new_fresh s (comp_t v env) false no_attrs in emit s1 (OObj id)
           end
         | OpR a =>
           match pre_r v a with
-          | PRaise e => finish s (vals s) (caches s) (ORaise e)
-          | PSelf => finish s (vals s) (caches s) (OObj t)
+          | PRaise e => emit s (ORaise e)
+          | PSelf => emit s (OObj t)
           | PGo env =>
-            if mode then
-              match dq_lookup kr_eqb (c_rs c) (lkey_r env) with
-              | Some id => finish s (vals s) (caches s) (OObj id)
+            if caching then
+              match dq_lookup kr_eqb (d_rs d) (lkey_r env) with
+              | Some id => emit s (OObj id)
               | None =>
-                let '(id, vs) := alloc s (comp_r v env) in
-                finish s vs (set_cache (caches s) t
-                               (Build_cache (c_tr c) (dq_append cap (c_rs c) (skey_r env, id)) (c_csr c) (c_csc c)))
-                       (OObj id)
+                let '(s1, id) := new_fresh s (comp_r v env) true no_attrs in
+                emit (set_deq s1 c (Build_dq (d_tr d) (dq_append cap (d_rs d) (skey_r env, id)))) (OObj id)
               end
-            else let '(id, vs) := alloc s (comp_r v env) in finish s vs (caches s) (OObj id)
+            else let '(s1, id) := new_fresh s (comp_r v env) false no_attrs in emit s1 (OObj id)
           end
         | OpCsr =>
           match guard_m v with
-          | Some e => finish s (vals s) (caches s) (ORaise e)
+          | Some e => emit s (ORaise e)
           | None =>
-            if mode then let '(r, vs, cs) := csr_cached s t v in finish s vs cs r
+            if caching then let '(r, s1) := csr_cached s t v in emit s1 r
             else match mk_csr v with
-                 | Raise e => finish s (vals s) (caches s) (ORaise e)
-                 | Ok m => let '(id, vs) := alloc s m in finish s vs (caches s) (OObj id)
+                 | Raise e => emit s (ORaise e)
+                 | Ok m => let '(s1, id) := new_fresh s m false no_attrs in emit s1 (OObj id)
                  end
           end
         | OpCsc =>
           match guard_m v with
-          | Some e => finish s (vals s) (caches s) (ORaise e)
+          | Some e => emit s (ORaise e)
           | None =>
-            if mode then
-              match c_csc c with
-              | Some id => finish s (vals s) (caches s) (OObj id)          (* return self._csc *)
+            if caching then
+              match a_csc (attr s t) with
+              | Some id => emit s (OObj id)                                (* return self._csc *)
               | None =>
-                match c_csr c with
+                match a_csr (attr s t) with
                 | Some idr =>                                             (* self._csc = self._csr.tocsc() *)
                   match nth_error (vals s) idr with
-                  | Some m => let '(id, vs) := alloc s (csr2csc m) in
-                              finish s vs (set_cache (caches s) t (Build_cache (c_tr c) (c_rs c) (c_csr c) (Some id)))
-                                     (OObj id)
-                  | None => finish s (vals s) (caches s) (ORaise OtherError)
+                  | Some m => let '(s1, id) := new_fresh s (csr2csc m) false no_attrs in
+                              emit (set_attr s1 t {| a_csr := Some idr; a_csc := Some id |}) (OObj id)
+                  | None => emit s (ORaise OtherError)
                   end
                 | None =>                                                 (* self._csc = csc = self.tocsr().tocsc() *)
-                  let '(r, vs, cs) := csr_cached s t v in
+                  let '(r, s1) := csr_cached s t v in
                   match r with
                   | OObj idr =>
-                    match nth_error vs idr with
-                    | Some m =>
-                      let id := List.length vs in
-                      let c1 := cs t in
-                      finish s (vs ++ [csr2csc m])
-                             (set_cache cs t (Build_cache (c_tr c1) (c_rs c1) (c_csr c1) (Some id))) (OObj id)
-                    | None => finish s vs cs (ORaise OtherError)
+                    match nth_error (vals s1) idr with
+                    | Some m => let '(s2, id) := new_fresh s1 (csr2csc m) false no_attrs in
+                                emit (set_attr s2 t {| a_csr := a_csr (attr s1 t); a_csc := Some id |}) (OObj id)
+                    | None => emit s1 (ORaise OtherError)
                     end
-                  | _ => finish s vs cs r
+                  | _ => emit s1 r
                   end
                 end
               end
             else match mk_csr v with                                      (* csc = self.tocsr().tocsc() *)
-                 | Raise e => finish s (vals s) (caches s) (ORaise e)
-                 | Ok m => let '(id, vs) := alloc s (csr2csc m) in finish s vs (caches s) (OObj id)
+                 | Raise e => emit s (ORaise e)
+                 | Ok m => let '(s1, id) := new_fresh s (csr2csc m) false no_attrs in emit s1 (OObj id)
                  end
           end
+        | OpCopy f =>
+          (* self._make_shallow_copy_of(other); if fill_value is not None: self.fill_value = ...;
+             if self._cache is not None: self.enable_caching() *)
+          let v' := match f with Some x => refill v x | None => v end in
+          let fresh := match f with Some _ => cs_fill_resets site | None => cs_plain_resets site end in
+          if caching then
+            let '(s1, id) := if fresh then new_fresh s v' true (attr s t) else new_shared s v' c (attr s t) in
+            emit s1 (OObj id)
+          else let '(s1, id) := new_fresh s v' false no_attrs in emit s1 (OObj id)
+        | OpPickle => let '(s1, id) := new_fresh s v false no_attrs in emit s1 (OObj id)
+        | OpSame => emit s (OObj t)
         end
       end
     end.
 
-  Fixpoint run (mode : bool) (h : list (target * op)) (s : st) : st :=
+  Fixpoint run (h : list (target * op)) (s : st) : st :=
     match h with
     | [] => s
-    | (tg, o) :: r => run mode r (step mode s tg o)
+    | (tg, o) :: r => run r (step s tg o)
     end.
 
   (* what an observer sees of a call: the exception, or the value of the returned object *)
@@ -384,12 +450,19 @@ Section Family.
   Definition out_vals (s : st) : list vout := map (out_val (vals s)) (outs s).
 End Family.
 
-Arguments OpT {AT AR} a.
-Arguments OpR {AT AR} a.
-Arguments OpCsr {AT AR}.
-Arguments OpCsc {AT AR}.
+Arguments OpT {AT AR F} a.
+Arguments OpR {AT AR F} a.
+Arguments OpCsr {AT AR F}.
+Arguments OpCsc {AT AR F}.
+Arguments OpCopy {AT AR F} f.
+Arguments OpPickle {AT AR F}.
+Arguments OpSame {AT AR F}.
 Arguments vals {V KT KR} s.
-Arguments caches {V KT KR} s.
+Arguments flag {V KT KR} s.
+Arguments cell {V KT KR} s.
+Arguments ncell {V KT KR} s.
+Arguments deqs {V KT KR} s.
+Arguments attr {V KT KR} s.
 Arguments outs {V KT KR} s.
 Arguments VRaise {V} e.
 Arguments VVal {V} v.
@@ -397,11 +470,11 @@ Arguments VSkip {V}.
 Arguments VBad {V}.
 
 (* ------------------------------------------------------------------ COO: the family model instantiated
-   with the generated protocols.  W is the type of the values of local names (axes, shape: tuples of
-   ints); the result computations are arbitrary functions of the receiver's value and of the values of
-   the names the extractor found the result to depend on. *)
+   with the generated protocols and the generated copy-constructor site.  W is the type of the values of
+   local names (axes, shape: tuples of ints); the result computations are arbitrary functions of the
+   receiver's value and of the values of the names the extractor found the result to depend on. *)
 Section COO.
-  Variables (V W AT AR : Type).
+  Variables (V W AT AR F : Type).
   Variable weqb : W -> W -> bool.
   Variable cap : nat.
   Variable pre_t : V -> AT -> pre (env W).
@@ -411,12 +484,13 @@ Section COO.
   Variable guard_m : V -> option exc.
   Variable mk_csr : V -> res V.
   Variables (csr2csc csc2csr : V -> V).
+  Variable refill : V -> F -> V.
 
-  Definition coo_run : bool -> list (target * op AT AR) -> st V (list W) (list W) -> st V (list W) (list W) :=
-    run V AT AR (env W) (env W) (list W) (list W) (keys_eqb weqb) (keys_eqb weqb) cap
+  Definition coo_run : list (target * op AT AR F) -> st V (list W) (list W) -> st V (list W) (list W) :=
+    run V AT AR (env W) (env W) (list W) (list W) F (keys_eqb weqb) (keys_eqb weqb) cap coo_copy_site
         pre_t (key_of (p_lookup_key transpose_proto)) (key_of (p_store_key transpose_proto))
         (fun v e => g_t v (key_of (p_result_deps transpose_proto) e))
         pre_r (key_of (p_lookup_key reshape_proto)) (key_of (p_store_key reshape_proto))
         (fun v e => g_r v (key_of (p_result_deps reshape_proto) e))
-        guard_m mk_csr csr2csc csc2csr.
+        guard_m mk_csr csr2csc csc2csr refill.
 End COO.
